@@ -224,7 +224,27 @@ func (obj *SparseInt32Vector) Slice(i, j int) Vector {
   return obj.SLICE(i, j)
 }
 func (obj *SparseInt32Vector) Swap(i, j int) {
-  obj.values[i], obj.values[j] = obj.values[j], obj.values[i]
+  if i < 0 || j < 0 || i >= obj.n || j >= obj.n {
+    panic("index out of bounds")
+  }
+  // move the entries (not only the map values): an absent entry stays
+  // absent and the index follows the keys
+  vi, oki := obj.values[i]
+  vj, okj := obj.values[j]
+  if okj {
+    obj.values[i] = vj
+    obj.indexInsert(i)
+  } else if oki {
+    delete(obj.values, i)
+    obj.indexDelete(i)
+  }
+  if oki {
+    obj.values[j] = vi
+    obj.indexInsert(j)
+  } else if okj {
+    delete(obj.values, j)
+    obj.indexDelete(j)
+  }
 }
 func (obj *SparseInt32Vector) AppendScalar(scalars ...Scalar) Vector {
   r := obj.Clone()
@@ -385,24 +405,8 @@ func (obj *SparseInt32Vector) Permute(pi []int) error {
     }
     if i != pi[i] && pi[i] > i {
       // permute elements
-      _, ok1 := obj.values[i]
-      _, ok2 := obj.values[pi[i]]
-      if ok1 && ok2 {
-        obj.values[pi[i]], obj.values[i] = obj.values[i], obj.values[pi[i]]
-      } else
-      if ok1 {
-        obj.values[pi[i]] = obj.values[i]
-        delete(obj.values, i)
-      } else
-      if ok2 {
-        obj.values[i] = obj.values[pi[i]]
-        delete(obj.values, pi[i])
-      }
+      obj.Swap(i, pi[i])
     }
-  }
-  obj.vectorSparseIndex = vectorSparseIndex{}
-  for i := 0; i < len(pi); i++ {
-    obj.indexInsert(pi[i])
   }
   return nil
 }
